@@ -12,3 +12,28 @@ package signature
 //@   trusted
 //@   modifies nothing
 //@   ensures err == nil && data != nil && bytesId(data) == uf("pkBytes", k)
+
+// ---- signatures (cryptography abstracted: sigOK is an uninterpreted predicate) ----
+
+//@ ghost func SigOK(pk PublicKey, context Context, msg []byte, sig RawSignature) bool { return ufb("sigOK", pk, context, bytesId(msg), sig) }
+
+//@ func Signature.Verify
+//@   trusted
+//@   modifies nothing
+//@   ensures result == SigOK(s.PublicKey, context, message, s.Signature)
+//@   note Ed25519 over SHA-512/256(context' || message) where context' carries the chain separation suffix; not modelled
+
+//@ func Signature.SanityCheck
+//@   props C09 C17
+//@   modifies nothing
+//@   ensures err == nil ==> s.PublicKey == expectedPubKey
+
+//@ func Signed.Open
+//@   props C09 C17
+//@   modifies dst
+//@   trustframe
+//@   ensures err == nil ==> old(SigOK(s.Signature.PublicKey, context, s.Blob, s.Signature.Signature))
+
+//@ func PublicKey.IsValid
+//@   trusted
+//@   pure
